@@ -306,7 +306,7 @@ fn check_barrier(id: &'static str, scn: &Scenario, h: &History) -> Outcome {
                 if iv.unsub_inv.is_some() {
                     continue;
                 }
-                if matches!(d.sub_kind(*sub), SubKind::Selector { .. }) {
+                if matches!(d.sub_kind(*sub), SubKind::Selector { .. }) || scn.sub(*sub).fn_wrapped {
                     continue;
                 }
                 let by = sr.max(ar);
